@@ -140,7 +140,7 @@ D2Interp(t) == {Interp1(p) : p \in Pool(t)} \cup {InterpLV("a ", p) : p \in Pool
 
 \* ---------------------------------------------------------------- depth 3: selected shapes over a small leaf set
 D3Leaf(t) == IF t = "quick" THEN Pick(AllLeaves, {"1", "\" 2 \"", "x"}) ELSE Pick(AllLeaves, {"1", "0.5", "\" 2 \"", "nil", "x", "x()"})
-D3Ops(t)  == IF t = "quick" THEN {"+", "^", "..", "==", "<", "and", "or"} ELSE AllBinOps
+D3Ops(t)  == IF t = "quick" THEN {"+", "^", "..", "==", "and", "or"} ELSE AllBinOps
 D3Left(t)  == {Bin(o2, Par(Bin(o1, a, b)), c) : o1 \in D3Ops(t), o2 \in D3Ops(t), a \in D3Leaf(t), b \in D3Leaf(t), c \in D3Leaf(t)}
 D3Right(t) == {Bin(o1, a, Par(Bin(o2, b, c))) : o1 \in D3Ops(t), o2 \in D3Ops(t), a \in D3Leaf(t), b \in D3Leaf(t), c \in D3Leaf(t)}
 D3Un(t)    == {Un(u, Par(Bin(o, a, b))) : u \in UnOps, o \in D3Ops(t), a \in D3Leaf(t), b \in D3Leaf(t)}
